@@ -393,7 +393,7 @@ func (ev *evidence) write() {
 		"ssa_instructions_in_encoded_functions": total,
 		"bounds":                        ev.Cfg.Bounds,
 		"outside_the_bounds":            ev.Cfg.Outside,
-		"solver":                        "z3 5.1.0 (z3-new) decides every final obligation as a standalone QF_BV script; a portfolio (z3 5.1.0 on the define-fun script, z3 4.8.12 on the named-constant script) decides each; the thorough tier re-runs the quick configurations, adds the deeper ones and, for those, additionally re-solves every assert / cover / frozen-write obligation and an evenly spaced sample of <=24 no-panic / unwinding obligations per run with z3 4.8.12 and cvc5 1.0.3 (20 s cap each; a disagreement is a machinery fault)",
+		"solver":                        "z3 5.1.0 (z3-new) decides every final obligation as a standalone QF_BV script; a portfolio (z3 5.1.0 on the define-fun script, z3 4.8.12 on the named-constant script) decides each; the thorough tier re-runs the quick configurations, adds the deeper ones and, for those, additionally re-solves every cover / frozen-write obligation and evenly spaced samples of <=48 assert and <=24 no-panic / unwinding obligations per run with z3 4.8.12 and cvc5 1.0.3 (20 s cap each; a disagreement is a machinery fault)",
 		"solver_cpu_s":                  ev.solverCPU,
 		"feasibility_solver_s":          ev.feasS,
 		"runs":                          ev.runs,
